@@ -261,8 +261,8 @@ func (u *Unit) stmt(st *State, s ast.Stmt, c *Ctl, k func(*State)) {
 		if _, isLit := ast.Unparen(x.Call.Fun).(*ast.FuncLit); !isLit {
 			// go f(x): evaluate nothing else
 		}
-		u.ghostAt(st, "go#"+fmt.Sprint(u.oblCount["go"]), x.Pos())
-		u.oblCount["go"]++
+		u.ghostAt(st, "go#"+fmt.Sprint(u.goOrdOf(x)), x.Pos())
+		u.callSiteClauses(ev, "go#"+fmt.Sprint(u.goOrdOf(x)), nil, nil, nil)
 		u.assumeNote("go statements: the spawned body is verified as its own unit or not at all; no interleaving semantics")
 		k(st)
 	case *ast.SendStmt:
@@ -877,6 +877,7 @@ func (u *Unit) forStmt(st *State, x *ast.ForStmt, c *Ctl, k func(*State)) {
 				c2.cont[lbl] = endIter
 				c2.brk[lbl] = k
 			}
+			u.ghostAt(sb, "begin loop "+id, bodyPos)
 			u.block(sb, x.Body.List, c2, endIter)
 		}, func(se *State) {
 			k(se)
@@ -1113,6 +1114,7 @@ func (u *Unit) rangeStmt(st *State, x *ast.RangeStmt, c *Ctl, k func(*State)) {
 			c2.cont[lbl] = endIter
 			c2.brk[lbl] = k
 		}
+		u.ghostAt(sb, "begin loop "+id, bodyPos)
 		u.block(sb, x.Body.List, c2, endIter)
 		k(st)
 	default:
@@ -1269,6 +1271,7 @@ func (u *Unit) deferStmt(st *State, x *ast.DeferStmt) {
 func (u *Unit) returnStmt(st *State, x *ast.ReturnStmt, c *Ctl) {
 	if k, ok := u.retOrd[x]; ok {
 		u.ghostAt(st, fmt.Sprintf("return#%d", k), x.Pos())
+		u.callSiteClauses(u.ev(st, x.Pos()), fmt.Sprintf("return#%d", k), nil, nil, nil)
 	}
 	ev := u.ev(st, x.Pos())
 	var vals []Value
@@ -1542,4 +1545,19 @@ func (u *Unit) isHarmlessCall(x *ast.CallExpr) bool {
 		}
 	}
 	return false
+}
+
+// goOrdOf numbers go statements of the unit's body in source order.
+func (u *Unit) goOrdOf(g *ast.GoStmt) int {
+	n, found := 0, -1
+	ast.Inspect(u.body, func(nd ast.Node) bool {
+		if gs, ok := nd.(*ast.GoStmt); ok {
+			if gs == g {
+				found = n
+			}
+			n++
+		}
+		return true
+	})
+	return found
 }
